@@ -14,6 +14,7 @@ import (
 	"encoding/json"
 	"fmt"
 	"go/constant"
+	"go/types"
 	"os"
 	"os/exec"
 	"path/filepath"
@@ -124,9 +125,34 @@ func verifEnum(t reflect.Type, alpha []byte, maxLen int, depth int) []reflect.Va
 		if sub > 2 {
 			sub = 2
 		}
+		if t.Elem().Kind() == reflect.String && maxLen >= 3 {
+			sub = 3
+		}
 		elems := verifEnum(t.Elem(), alpha, sub, depth+1)
-		if len(elems) > 12 {
-			elems = elems[:12]
+		if len(elems) > 14 {
+			if t.Elem().Kind() == reflect.String {
+				// spread the picks over the lengths (the longest strings matter: "%aa")
+				byLen := map[int][]reflect.Value{}
+				maxL := 0
+				for _, e := range elems {
+					l := e.Len()
+					byLen[l] = append(byLen[l], e)
+					if l > maxL {
+						maxL = l
+					}
+				}
+				var pick []reflect.Value
+				for l := 0; l <= maxL; l++ {
+					xs := byLen[l]
+					step := len(xs)/4 + 1
+					for i := 0; i < len(xs) && len(pick) < 14; i += step {
+						pick = append(pick, xs[i])
+					}
+				}
+				elems = pick
+			} else {
+				elems = elems[:14]
+			}
 		}
 		out = append(out, reflect.MakeSlice(t, 0, 0))
 		for _, a := range elems {
@@ -148,6 +174,9 @@ func verifEnum(t reflect.Type, alpha []byte, maxLen int, depth int) []reflect.Va
 			sub := maxLen
 			if sub > 3 {
 				sub = 3
+			}
+			if fl := os.Getenv("VERIF_FIELDS"); fl != "" && strings.Contains(fl, ","+t.Name()+".") && !strings.Contains(fl, ","+t.Name()+"."+t.Field(i).Name+",") {
+				continue // the function under test never touches this field: zero value only
 			}
 			fv := verifEnum(t.Field(i).Type, alpha, sub, depth+1)
 			if len(fv) == 0 {
@@ -272,8 +301,15 @@ func verifTry(tg verifTarget, in []reflect.Value) (failed, observed string) {
 				failed, observed = "panic", fmt.Sprintf("panic: %v", r)
 			}
 		}()
-		results = tg.Fn.Call(in)
+		if tg.Fn.Type().IsVariadic() {
+			results = tg.Fn.CallSlice(in)
+		} else {
+			results = tg.Fn.Call(in)
+		}
 	}()
+	if strings.HasPrefix(observed, "panic: reflect:") {
+		return "", "" // a limitation of the replay harness, not a behaviour of the function
+	}
 	if failed != "" {
 		return
 	}
@@ -449,6 +485,62 @@ func (e *Engine) replayRegistry(cs *ContractSet) string {
 }
 
 // alphabetFor harvests byte and string constants from a function and its callees.
+// fieldsTouched lists ",Type.Field," for every struct field the function (and the module functions it
+// calls, depth 3) addresses or reads: the replay varies only these fields of struct-typed inputs.
+func (e *Engine) fieldsTouched(fn *ssa.Function) string {
+	seen := map[string]bool{}
+	visited := map[*ssa.Function]bool{}
+	var visit func(f *ssa.Function, depth int)
+	note := func(t types.Type, idx int) {
+		if p, ok := t.Underlying().(*types.Pointer); ok {
+			t = p.Elem()
+		}
+		n, ok := t.(*types.Named)
+		if !ok {
+			return
+		}
+		st, ok := n.Underlying().(*types.Struct)
+		if !ok || idx >= st.NumFields() {
+			return
+		}
+		seen[n.Obj().Name()+"."+st.Field(idx).Name()] = true
+	}
+	visit = func(f *ssa.Function, depth int) {
+		if f == nil || visited[f] || depth > 3 {
+			return
+		}
+		visited[f] = true
+		for _, b := range f.Blocks {
+			for _, ins := range b.Instrs {
+				switch x := ins.(type) {
+				case *ssa.FieldAddr:
+					note(x.X.Type(), x.Field)
+				case *ssa.Field:
+					note(x.X.Type(), x.Field)
+				}
+				for _, op := range ins.Operands(nil) {
+					if c, ok := (*op).(*ssa.Function); ok && e.inModule(c) {
+						visit(c, depth+1)
+					}
+				}
+			}
+		}
+		for _, an := range f.AnonFuncs {
+			visit(an, depth+1)
+		}
+	}
+	visit(fn, 0)
+	var ks []string
+	for k := range seen {
+		ks = append(ks, k)
+	}
+	sort.Strings(ks)
+	if len(ks) == 0 {
+		return ""
+	}
+	return "," + strings.Join(ks, ",") + ","
+}
+
 func (e *Engine) alphabetFor(fn *ssa.Function) string {
 	seen := map[byte]bool{}
 	visited := map[*ssa.Function]bool{}
@@ -612,11 +704,12 @@ func (e *Engine) findCounterexample(fc *FuncContract, opt CheckOptions) map[stri
 	test := strings.Replace(replayTestTemplate, "package PKG", "package "+cs.PkgName, 1) + "\n" + e.replayRegistry(cs)
 	overlay[filepath.Join(cs.PkgDir, "zz_verif_replay_test.go")] = []byte(test)
 	alpha := e.alphabetFor(e.FuncOf[fc])
+	fields := e.fieldsTouched(e.FuncOf[fc])
 	maxLen := "5"
 	if opt.Tier == "thorough" {
 		maxLen = "6"
 	}
-	out, err := runOverlayTest(opt.RepoDir, pkgDir, overlay, "TestVerifReplay$", []string{"VERIF_TARGET=" + fc.Key, "VERIF_ALPHABET=" + alpha, "VERIF_MAXLEN=" + maxLen, fmt.Sprintf("VERIF_SEED=%d", opt.Seed)}, 60*time.Second)
+	out, err := runOverlayTest(opt.RepoDir, pkgDir, overlay, "TestVerifReplay$", []string{"VERIF_TARGET=" + fc.Key, "VERIF_ALPHABET=" + alpha, "VERIF_MAXLEN=" + maxLen, fmt.Sprintf("VERIF_SEED=%d", opt.Seed), "VERIF_FIELDS=" + fields}, 60*time.Second)
 	res := map[string]any{"search": map[string]any{"alphabet": alpha, "max_len": maxLen, "target": fc.Key}}
 	for _, ln := range strings.Split(out, "\n") {
 		if strings.HasPrefix(ln, "VERIF-REPLAY: ") {
